@@ -2,7 +2,7 @@
    PARTIAL: these theorems are about the protocol (who may take a step); that tokio/std deliver the
    wake-up and schedule the woken thread in finite time is outside the model. *)
 From Coq Require Import List Arith ZArith.
-From LK Require Import AList Model Observe Inv StepInv PropLemmas DropInv.
+From LK Require Import AList Model Observe Inv StepInv PropLemmas DropInv Drain.
 Import ListNotations.
 
 (* Every in-flight call that is not waiting for a per-key mutex (and is not running user code) can take
@@ -27,11 +27,8 @@ Qed.
 
 Theorem C03_stream_drops_valueless_guard : forall c s a subs k g o,
   reachable c s -> aget a (s_ops s) = Some (PStream subs) -> aget k subs = Some (SUnlocking g) ->
-  aget k (s_ents s) <> None ->
   exists s' ob, step c s (LSub a k o) = ROk s' ob.
-Proof.
-  intros c s a subs k g o H. exact (stream_unlock_enabled c s a subs k g o (reachable_inv c s H) (reachable_dinv c s H)).
-Qed.
+Proof. exact stream_unlock_enabled'. Qed.
 
 (* A key that nobody holds or waits for is acquired at once: an absent key in the look-up itself, ... *)
 Theorem C03_absent_key_no_wait : forall c s a sh k s' ob,
@@ -79,6 +76,48 @@ Theorem C03_blocked_only_by_client_guards : forall c s a sh k,
   (forall a' k', aget a' (s_ops s) <> Some (PCancel k')) ->
   exists g, aget g (s_guards s) = Some k.
 Proof. intros c s a sh k H. exact (blocked_on_guard s a sh k (reachable_inv c s H)). Qed.
+
+(* NO LIBRARY-MADE DEADLOCK.  From every reachable state -- any number of calls in flight on any keys,
+   queued behind each other, soft-limited calls in the middle of eviction rounds, streams half consumed or
+   half dropped, guards in the middle of being dropped -- the client can bring the container to rest (no call
+   in flight, no guard alive) by a run that consists only of: steps of the calls that are already in flight,
+   eviction callbacks returning, drops of guards, and drops of streams that have delivered everything
+   (drain_ok).  It never has to start a lock call and never has to cancel a pending one: every waiter gets
+   its key once the guards in front of it have been dropped.  (Drain.v: a lexicographic measure decreases
+   with every move of the draining client, and the client always has a move.) *)
+Theorem C03_no_library_deadlock : forall c s,
+  reachable c s -> exists ls s', dsteps c s ls s' /\ s_ops s' = [] /\ s_guards s' = [].
+Proof. exact drain. Qed.
+
+(* ... so no reachable state with calls in flight or guards alive is a dead end *)
+Theorem C03_never_stuck : forall c s,
+  reachable c s -> (s_ops s <> [] \/ s_guards s <> []) ->
+  exists l s' o, drain_ok s l /\ step c s l = ROk s' o.
+Proof. exact never_stuck. Qed.
+
+(* non-vacuity of the draining theorem: a reachable state with a holder, an async waiter queued behind it,
+   a stream pending on the same key and a soft-limited call inside its callback -- and a draining run from it *)
+Example C03_drain_witness :
+  exists s s', run (mkCfg true)
+    [LStart 0 (CLock ShBlocking 1 None); LResume 0 []; LGuardOp 0 (GInsert 5);
+     LStart 1 (CLock ShAsync 1 None); LResume 1 []; LResume 1 [];
+     LStart 2 CStream; LResume 2 []; LSub 2 1 [];
+     LStart 3 (CLock ShTry 2 None); LResume 3 []; LGuardOp 1 (GInsert 6); LStart 4 (CDrop 1); LResume 4 [];
+     LStart 5 (CLock ShBlocking 3 (Some 2)); LResume 5 []] = RunOk s
+    [ONothing; OGuard 0 1 None; OVal None; ONothing; ONothing; ONothing; ONothing; OStream [1]; ONothing;
+     ONothing; OGuard 1 2 None; OVal None; ONothing; OUnit; ONothing; OOffered [(2, 2, 6%Z)]]
+  /\ length (s_ops s) = 3 /\ length (s_guards s) = 2
+  /\ dsteps (mkCfg true) s
+       [LCbReturn 5 CbErr false; LStart 6 (CDrop 0); LResume 6 []; LResume 1 []; LStart 7 (CDrop 3); LResume 7 [];
+        LSub 2 1 []; LStart 8 (CDrop 4); LResume 8 []; LCancel 2; LStart 9 (CDrop 2); LResume 9 []] s'
+  /\ s_ops s' = [] /\ s_guards s' = [].
+Proof.
+  eexists. eexists. split; [vm_compute; reflexivity|]. split; [reflexivity|]. split; [reflexivity|].
+  split; [|split].
+  - repeat (eapply ds_cons; [first [exact I | reflexivity] | vm_compute; reflexivity |]). apply ds_nil.
+  - reflexivity.
+  - reflexivity.
+Qed.
 
 (* non-vacuity: a waiter queued behind a holder, released, handed, acquires *)
 Example C03_witness :
